@@ -85,7 +85,7 @@ Theorem C17_chsize_ok : forall (k : N) (g : nat -> N -> bool) hs size hs' m,
   Forall (fun h => st h = sz h /\ (2^k | sz h)) hs' /\
   Forall2 (fun h h' => valid h' <= valid h /\ valid h' <= st h') hs hs' /\
   (m = false <-> map sz hs' = map sz hs) /\
-  (forall i h n h', nth_error hs i = Some h -> nth_error hs (S i) = Some n -> sz n <> 0 ->
+  (forall i j h hj h', (i < j)%nat -> nth_error hs i = Some h -> nth_error hs j = Some hj -> sz hj <> 0 ->
      nth_error hs' i = Some h' ->
      sz h' <= sz h /\ (st h = sz h -> sz h' = N.min (sz h) (size - prefix (map sz hs') i))).
 Proof. exact chsize_ok. Qed.
@@ -96,59 +96,40 @@ Theorem C17_chsize_missing : forall (k : N) (g : nat -> N -> bool) hs size n,
   n <> 0 /\ exists hs', chsize_loop g (2^k) 0 hs size = Ok (hs', n) /\ sum (map sz hs') + n = size.
 Proof. exact chsize_missing. Qed.
 
-(* "only the last used split grows", strong reading (any split with a used split somewhere after it).
-   FULL STATEMENT (no hypothesis on the recorded sizes):
-     forall k g hs size hs' m, chsize g (2^k) hs size = Ok (hs', m) ->
-       forall i j h hj h', i < j -> nth_error hs i = Some h -> nth_error hs j = Some hj -> sz hj <> 0 ->
-         nth_error hs' i = Some h' -> sz h' <= sz h
-   is FALSE for the code as written (an unused split before a used one makes the split before it "growing"): *)
-Theorem C17_chsize_only_last_grows_refuted :
-  exists k g hs size hs' m,
-    chsize g (2^k) hs size = Ok (hs', m) /\
-    exists i j h hj h', (i < j)%nat /\ nth_error hs i = Some h /\ nth_error hs j = Some hj /\ sz hj <> 0 /\
-      nth_error hs' i = Some h' /\ sz h < sz h'.
-Proof. exact chsize_only_last_grows_refuted. Qed.
-Print Assumptions C17_chsize_only_last_grows_refuted.
-
-(* it holds exactly when no unused split precedes a used one *)
-Theorem C17_chsize_only_last_grows_partial : forall k g hs size hs' m,
-  packed (map sz hs) ->
+(* "only the last used split grows": any split with a used split somewhere after it keeps or reduces its size.
+   Full strength, no hypothesis on the recorded sizes (was refuted before /repo commit 391ce18: parity_split_is_fixed
+   looked at the next split only; the regression case is harness/py/c17_repro_midzero.py, run by every check). *)
+Theorem C17_chsize_only_last_grows : forall k g hs size hs' m,
   chsize g (2^k) hs size = Ok (hs', m) ->
   forall i j h hj h', (i < j)%nat -> nth_error hs i = Some h -> nth_error hs j = Some hj -> sz hj <> 0 ->
     nth_error hs' i = Some h' -> sz h' <= sz h.
-Proof. exact chsize_only_last_grows_partial. Qed.
-Print Assumptions C17_chsize_only_last_grows_partial.
+Proof. exact chsize_only_last_grows. Qed.
+Print Assumptions C17_chsize_only_last_grows.
 
-(* `packed` is an invariant when the growth oracles are monotone and every split can hold one block *)
-Theorem C17_packed_invariant : forall (k : N) (g : nat -> N -> bool),
-  (forall s x y, x <= y -> g s y = true -> g s x = true) -> (forall s, g s (2^k) = true) ->
-  forall ps size ps', wf (2^k) ps -> packed (sizes_of ps) ->
-  chsize_data g (2^k) ps size = Ok ps' -> packed (sizes_of ps').
-Proof. exact chsize_data_packed. Qed.
-
-(* --- refinement: concatenation of the splits = the one-file parity, for any history of writes and resizes ----- *)
-Theorem C17_split_concat : forall (k : N) (g : nat -> N -> bool),
-  (forall s x y, x <= y -> g s y = true -> g s x = true) -> (forall s, g s (2^k) = true) ->
-  forall ops ps ps', wf (2^k) ps -> packed (sizes_of ps) ->
+(* --- refinement: concatenation of the splits = the one-file parity, for any history of writes and resizes,
+       for ANY growth oracle (no monotonicity, no capacity assumption, no hypothesis on the layout) ------------- *)
+Theorem C17_split_concat : forall (k : N) (g : nat -> N -> bool) ops ps ps', wf (2^k) ps ->
   run_ops g (2^k) ps ops = Some ps' ->
-  wf (2^k) ps' /\ packed (sizes_of ps') /\
-  concat_view ps' = fold_left (flat_op (2^k)) ops (concat_view ps).
+  wf (2^k) ps' /\ concat_view ps' = fold_left (flat_op (2^k)) ops (concat_view ps).
 Proof. exact split_concat. Qed.
 Print Assumptions C17_split_concat.
 
-Theorem C17_split_vs_single : forall k g1 g2,
-  (forall s x y, x <= y -> g1 s y = true -> g1 s x = true) -> (forall s, g1 s (2^k) = true) ->
-  (forall s x y, x <= y -> g2 s y = true -> g2 s x = true) -> (forall s, g2 s (2^k) = true) ->
-  forall ops ps qs ps' qs', wf (2^k) ps -> packed (sizes_of ps) -> wf (2^k) qs -> packed (sizes_of qs) ->
+Theorem C17_split_vs_single : forall k g1 g2 ops ps qs ps' qs', wf (2^k) ps -> wf (2^k) qs ->
   concat_view ps = concat_view qs ->
   run_ops g1 (2^k) ps ops = Some ps' -> run_ops g2 (2^k) qs ops = Some qs' ->
   concat_view ps' = concat_view qs'.
 Proof. exact split_vs_single. Qed.
 Print Assumptions C17_split_vs_single.
 
-(* one resize, no hypothesis on the oracle: success means ftruncate of the concatenation *)
+(* the oracle may change in the middle of a history (space freed / used up on a parity disk) *)
+Theorem C17_split_concat_changing_oracle : forall k g1 g2 ops1 ops2 ps ps1 ps2, wf (2^k) ps ->
+  run_ops g1 (2^k) ps ops1 = Some ps1 -> run_ops g2 (2^k) ps1 ops2 = Some ps2 ->
+  wf (2^k) ps2 /\ concat_view ps2 = fold_left (flat_op (2^k)) (ops1 ++ ops2) (concat_view ps).
+Proof. exact split_concat_changing_oracle. Qed.
+
+(* one resize: success means ftruncate of the concatenation *)
 Theorem C17_chsize_concat : forall (k : N) (g : nat -> N -> bool) ps size ps',
-  wf (2^k) ps -> packed (sizes_of ps) -> chsize_data g (2^k) ps size = Ok ps' ->
+  wf (2^k) ps -> chsize_data g (2^k) ps size = Ok ps' ->
   wf (2^k) ps' /\ (2^k | size) /\ sum (sizes_of ps') = size /\ files ps' = resize (files ps) size.
 Proof. exact chsize_concat. Qed.
 
@@ -157,17 +138,22 @@ Theorem C17_single_file_resize : forall k (p : psplit) size, wf (2^k) [p] -> (2^
              p_size p' = size /\ p_file p' = resize (p_file p) size.
 Proof. exact single_resize_ok. Qed.
 
-(* FULL STATEMENT of the refinement without `packed` is FALSE for the code as written: after a legal resize the
-   block written at position 1 is no longer read at position 1 and the concatenation is not the flat file *)
-Theorem C17_read_after_resize_refuted :
-  exists k g ps blk ps1 ps2,
-    wf (2^k) ps /\ length blk = N.to_nat (2^k) /\
-    parity_write (2^k) ps 1 blk = Some ps1 /\ parity_read (2^k) ps1 1 = Some blk /\
-    chsize_data g (2^k) ps1 12 = Ok ps2 /\
-    parity_read (2^k) (parity_reopen ps2) 1 <> Some blk /\
-    concat_view ps2 <> resize (concat_view ps1) 12.
-Proof. exact read_after_resize_refuted. Qed.
-Print Assumptions C17_read_after_resize_refuted.
+(* reading a re-opened split parity = reading the flat file *)
+Theorem C17_read_is_flat : forall bs ps pos, 0 < bs -> wf bs ps ->
+  parity_read bs (parity_reopen ps) pos = pread (files ps) (N.to_nat (block_off bs pos)) (N.to_nat bs).
+Proof. exact read_is_flat. Qed.
+Print Assumptions C17_read_is_flat.
+
+(* what is written at a position is read back from that position after any successful resize that keeps the position
+   inside the parity, and re-opening (full strength; was refuted before 391ce18) *)
+Theorem C17_read_after_resize : forall k g ps pos blk ps1 size ps2, wf (2^k) ps ->
+  length blk = N.to_nat (2^k) ->
+  parity_write (2^k) ps pos blk = Some ps1 ->
+  chsize_data g (2^k) ps1 size = Ok ps2 ->
+  block_off (2^k) pos + 2^k <= size ->
+  parity_read (2^k) (parity_reopen ps2) pos = Some blk.
+Proof. exact read_after_resize. Qed.
+Print Assumptions C17_read_after_resize.
 
 (* --- removal of trailing splits from the configuration ---------------------------------------------------------- *)
 Theorem C17_dropped_split_rule : forall configured recorded,
@@ -185,14 +171,14 @@ Proof. exact dropped_split_same_map. Qed.
 (* a 4-split layout with an unused split at the end: hypotheses of no_straddle hold, blocks land where expected *)
 Example C17_nonvacuous_addr :
   let sizes := [2048; 1024; 3072; 0] in
-  aligned 1024 sizes /\ packed sizes /\
+  aligned 1024 sizes /\
   parity_addr sizes 1024 0 = Some (0%nat, 0) /\ parity_addr sizes 1024 1 = Some (0%nat, 1024) /\
   parity_addr sizes 1024 2 = Some (1%nat, 0) /\ parity_addr sizes 1024 5 = Some (2%nat, 2048) /\
   parity_addr sizes 1024 6 = None /\ split_find_raw sizes 7000 = (None, 856).
 Proof.
   cbv zeta. split.
   { repeat constructor; try (exists 2; reflexivity); try (exists 1; reflexivity); try (exists 3; reflexivity); exists 0; reflexivity. }
-  split; [cbn; repeat split; try discriminate; auto|]. vm_compute. repeat split; reflexivity.
+  vm_compute. repeat split; reflexivity.
 Qed.
 
 (* a limit hit mid-growth, not block aligned: 0 -> 8192 wanted, limit 5000: ends at 4096 *)
@@ -213,25 +199,37 @@ Example C17_nonvacuous_chsize :
     chsize_limits [2500; 3000; 1500] (2^10) [z; z; z] 6144 = Err (EMissing 1024).
 Proof. cbv zeta. eexists. eexists. vm_compute. repeat split; try reflexivity. eexists. split; reflexivity. Qed.
 
-(* the refinement theorem's hypotheses are satisfiable on a history that crosses a split boundary *)
+(* the refinement theorem's hypothesis is satisfiable on a history that crosses split boundaries *)
 Example C17_nonvacuous_concat :
-  let g := fun s x => grow_ok_limit (nth s [9; 6; 0] 0) x in
+  let g := limits_oracle [9; 6; 0] in
   let ps := [ {| p_size := 0; p_valid := 0; p_file := [] |}; {| p_size := 0; p_valid := 0; p_file := [] |};
               {| p_size := 0; p_valid := 0; p_file := [] |} ] in
   let ops := [OpResize 16; OpWrite 1 [1; 2; 3; 4]; OpWrite 2 [5; 6; 7; 8]; OpWrite 3 [9; 9; 9; 9]; OpResize 12;
               OpResize 20; OpWrite 4 [7; 7; 7; 7]] in
-  (forall s x y, x <= y -> g s y = true -> g s x = true) /\ (forall s, g s (2^2) = true) /\
-  wf (2^2) ps /\ packed (sizes_of ps) /\
+  wf (2^2) ps /\
   exists ps', run_ops g (2^2) ps ops = Some ps' /\ sizes_of ps' = [8; 4; 8] /\
     concat_view ps' = [0;0;0;0; 1;2;3;4; 5;6;7;8; 0;0;0;0; 7;7;7;7].
 Proof.
-  cbv zeta. split; [intros s x y; apply grow_ok_limit_mono|].
-  split.
-  { intros s. destruct s as [|[|[|[|s]]]]; reflexivity. }
-  split; [repeat constructor; exists 0; reflexivity|].
-  split; [cbn; repeat split; auto|].
+  cbv zeta. split; [repeat constructor; exists 0; reflexivity|].
   eexists. vm_compute. repeat split; reflexivity.
 Qed.
+
+(* the layout that lost parity before 391ce18 (unused split between two used ones): hypotheses of
+   C17_chsize_only_last_grows and C17_read_after_resize hold there and the conclusions are what is computed *)
+Example C17_nonvacuous_midzero_chsize :
+  let u := fun n => {| sz := n; st := n; valid := n |} in
+  exists hs', chsize (fun _ _ => true) (2^10) [u 1024; u 0; u 1024] 3072 = Ok (hs', true) /\
+              map sz hs' = [1024; 0; 2048].
+Proof. exact chsize_midzero_example. Qed.
+
+Example C17_nonvacuous_midzero_read :
+  let ps := [ {| p_size := 4; p_valid := 4; p_file := [1; 2; 3; 4] |}; {| p_size := 0; p_valid := 0; p_file := [] |};
+              {| p_size := 4; p_valid := 4; p_file := [0; 0; 0; 0] |} ] in
+  exists ps1 ps2, wf (2^2) ps /\ parity_write (2^2) ps 1 [5; 6; 7; 8] = Some ps1 /\
+    chsize_data (fun _ _ => true) (2^2) ps1 12 = Ok ps2 /\ sizes_of ps2 = [4; 0; 8] /\
+    parity_read (2^2) (parity_reopen ps2) 1 = Some [5; 6; 7; 8] /\
+    concat_view ps2 = resize (concat_view ps1) 12.
+Proof. exact read_after_resize_midzero_example. Qed.
 
 Example C17_nonvacuous_dropped :
   load_splits 2 [4096; 1024; 0; 0] = Some [4096; 1024] /\ load_splits 2 [4096; 1024; 0; 1024] = None /\
